@@ -392,6 +392,16 @@ class Env:
         self.pathlib = pl
 
         def _open(p, mode="r", *a, **kw):
+            if "b" not in mode and mode.replace("t", "") == "r":
+                # text-mode read of a concrete file (JSON / CSV inputs of the commands)
+                import io
+                with fs.open(p, "rb") as f:
+                    data = f.read()
+                if isinstance(data, SBytes):
+                    data = data.concrete() if data.is_concrete() else None
+                if data is None:
+                    raise OutsideModel("text-mode read of a file with symbolic contents")
+                return io.StringIO(data.decode("utf-8"), newline=kw.get("newline"))
             return fs.open(p, mode)
         self.open = _open
 
